@@ -67,6 +67,12 @@ type scanSpecFunc func(string, int, *Spec, error) error
 // returned by the scan function, if any. The special error ErrStopScan
 // can be used to terminate the scan gracefully without ScanSpecDirs
 // returning an error. ScanSpecDirs silently skips any subdirectories.
+// dirScanError is the error passed to the scan function for a Spec
+// directory whose content could not be listed.
+type dirScanError struct{ error }
+
+func (e dirScanError) Unwrap() error { return e.error }
+
 func scanSpecDirs(dirs []string, scanFn scanSpecFunc) error {
 	var (
 		spec *Spec
@@ -94,6 +100,10 @@ func scanSpecDirs(dirs []string, scanFn scanSpecFunc) error {
 			// first call from Walk is for dir itself, others we skip
 			if info.IsDir() {
 				if path == dir {
+					if err != nil {
+						// a directory we cannot list: report it
+						return scanFn(path, priority, nil, dirScanError{err})
+					}
 					return nil
 				}
 				return filepath.SkipDir
